@@ -243,3 +243,23 @@ Theorem C19_counters_example :
   s_cur s = 32 /\ written_count c s = 5 /\ s_cur s - written_count c s = 27.
 Proof. exact counters_example. Qed.
 Print Assumptions C19_counters_example.
+
+(* gapped mode: histories mixing rf_write and rf_write_blocks (any number of blocks per call) *)
+Theorem C19_counters_count_gapped : forall c ops,
+  vcfg c -> c_chunk c = true -> c_cont c = false -> Forall api_arg_ok ops ->
+  let ps := fold_left (api_state c) ops py_init in
+  let s := fold_left (api_spec_gapped c) ops spec_init in
+  p_next ps = s_cur s /\ p_written ps = written_count c s /\ p_gap ps = s_cur s - written_count c s.
+Proof. exact counters_count_gapped. Qed.
+Print Assumptions C19_counters_count_gapped.
+
+(* the Spec of a valid multi-block call is the sequence of the Spec steps of its blocks (same cursor,
+   same map): gapped-mode and continuous-mode Specs describe an rf_write_blocks call identically *)
+Theorem C19_blocks_spec_is_sequence : forall c s G D vec,
+  c_cont c && multi (combine G D) = false ->
+  py_arrays_ok (s_cur s) (zlen vec) G D = true -> first_nonneg (combine G D) ->
+  let a := spec_step_blocks c s (combine G D, vec) in
+  let b := fold_left (spec_step c) (blocks_of G D vec (zlen vec)) s in
+  s_cur a = s_cur b /\ forall k, s_map a k = s_map b k.
+Proof. exact blocks_spec_is_sequence. Qed.
+Print Assumptions C19_blocks_spec_is_sequence.
